@@ -75,6 +75,8 @@ class C17Check:
         from halmos.config import ConfigSource, default_config
         from halmos.sevm import SMTQuery
 
+        if ch.chance(0.06, "mode.mainsig"):
+            return self.run_main_signal(ch, keep_log)
         # ---------------- swarm / workload (drawn first so that it shrinks last)
         n_jobs = ch.int(1, 3, "n_jobs")
         preempt_k = ch.choose([0, 0, 4, 12], "preempt_k")
@@ -217,6 +219,9 @@ class C17Check:
                     except hp.ShutdownError:
                         out["submit"] = "ShutdownError"
                         return
+                    except Exception as e:  # noqa: BLE001 - a job refused with another exception is an outcome, not a harness failure
+                        out["submit"] = "raised:" + type(e).__name__
+                        return
                     out["submit"] = "accepted"
                     out["accepted_after_shutdown_returned"] = submitted_before
                     try:
@@ -274,7 +279,7 @@ class C17Check:
                 elif shut_kind == "signal":
                     # client0 plays the main thread: the handler runs on its stack, wherever it is (fallback: it finished before)
                     sim.block("client.wait-signal", lambda: st.get("signal_delivered") or outcomes.get(0, {}).get("returned")
-                              or outcomes.get(0, {}).get("submit") == "ShutdownError")
+                              or str(outcomes.get(0, {}).get("submit", "")).startswith(("ShutdownError", "raised:")))
                     if not st.get("signal_delivered"):
                         do_shutdown("nowait")
                     else:
@@ -282,7 +287,7 @@ class C17Check:
                 elif shut_kind == "callback":
                     # the callback does it; make sure it happens at all
                     sim.block("client.wait-cb", lambda: st["shutdown_returned_at"] is not None
-                              or all(outcomes.get(j, {}).get("returned") or outcomes.get(j, {}).get("submit") == "ShutdownError"
+                              or all(outcomes.get(j, {}).get("returned") or str(outcomes.get(j, {}).get("submit", "")).startswith(("ShutdownError", "raised:"))
                                      for j in range(n_jobs)))
                     if st["shutdown_started_at"] is None:
                         do_shutdown("nowait")
@@ -448,6 +453,102 @@ class C17Check:
             shims.deactivate()
             hp.ExecutorRegistry._instance = None
             shutil.rmtree(tmpdir, ignore_errors=True)
+
+
+def _run_main_signal(self, ch, keep_log=False):
+    """run-sim variant of the shutdown-by-signal workload: halmos' real _main on a project whose only test has a failing path and
+    a solver that never answers (no time limit); SIGINT / SIGTERM at a seeded scheduling point of the main thread, optionally
+    with a --json-output path that cannot be written.  Oracle: once halmos has exited no solver process is left, and it does exit."""
+    import json
+    import shutil
+    import signal as _signal
+
+    import halmos.__main__ as hm
+
+    from checks import c05
+    from hsim import runsim as R
+
+    here = os.path.dirname(os.path.dirname(os.path.abspath(__file__)))
+    os.environ["PATH"] = os.path.join(here, "tools", "bin") + ":" + os.environ["PATH"]
+    nleaves = ch.int(1, 2, "ms.leaves")
+    leaves = [dict(outcome="panic", guard="eq", reply="hang") for _ in range(nleaves)]
+    cj, _bom = c05.build_contract(leaves, "success")
+    root = tempfile.mkdtemp(prefix="c17proj-", dir="/dev/shm" if os.path.isdir("/dev/shm") else None)
+    signame = ch.choose(["SIGINT", "SIGTERM"], "ms.signal")
+    steps = ch.choose([ch.pick(80, "ms.steps.a"), ch.pick(1500, "ms.steps.b")], "ms.steps")
+    second = ch.choose([None, None, ch.pick(60, "ms.second.d")], "ms.second")
+    json_mode = ch.choose(["none", "ok", "missing-dir"], "ms.json")
+    threads = ch.choose([1, 2], "ms.threads")
+    handlers, state = {}, {"delivered": 0}
+
+    class SignalProxy:
+        def __getattr__(self, name):
+            return getattr(_signal, name)
+
+        def signal(self, signum, handler):
+            handlers[int(signum)] = handler
+
+    def deliver():
+        num = int(getattr(_signal, signame))
+        h = handlers.get(num)
+        if h is None:
+            return
+        state["delivered"] += 1
+        h(num, None)
+
+    try:
+        os.makedirs(root + "/out/T.sol")
+        with open(root + "/out/T.sol/T.json", "w") as f:
+            json.dump({k: v for k, v in cj.items() if k != "abi_dict"}, f)
+        with open(root + "/foundry.toml", "w") as f:
+            f.write("[profile.default]\n")
+        argv = ["--root", root, "--solver-command", "simsolver", "--no-status", "--solver-threads", str(threads),
+                "--solver-timeout-assertion", "0", "--solver-timeout-branching", "0", "--panic-error-codes", "0x01,0x11,0x12,0x21"]
+        if json_mode == "ok":
+            argv += ["--json-output", root + "/result.json"]
+        elif json_mode == "missing-dir":
+            argv += ["--json-output", root + "/no/such/dir/result.json"]
+
+        def main():
+            orig_signal = hm.signal
+            hm.signal = SignalProxy()
+            try:
+                return hm._main(argv)
+            finally:
+                hm.signal = orig_signal
+
+        irq = [(steps, deliver)] + ([(steps + second, deliver)] if second is not None else [])
+        out = R.run_under_sim(ch, main, solver="yices", plan=lambda info: "hang", unknown_rate=1.0, max_steps=40000,
+                              interrupt=irq, keep_log=keep_log)
+    finally:
+        shutil.rmtree(root, ignore_errors=True)
+    vio = []
+    if state["delivered"]:
+        if out.outcome == "deadlock":
+            kinds = sorted({x.split(":", 1)[1] for x in out.sim.deadlock_info})
+            vio.append(dict(oracle="C17:waiter-stuck", disc="signal:" + "+".join(kinds)[:60],
+                            detail=f"{signame} at step {steps} of _main: halmos never exited; parked {out.sim.deadlock_info}; "
+                                   f"processes alive {out.alive_procs}"))
+        elif out.outcome == "done" and out.alive_procs:
+            vio.append(dict(oracle="C17:proc-alive-after-shutdown", disc="signal:main:" + json_mode,
+                            detail=f"{signame} at step {steps} of _main (json output: {json_mode}): halmos has exited "
+                                   f"({out.exception!r}) but solver processes are still running: {out.alive_procs}"))
+    faults = dict(out.sim.fault_counts)
+    if state["delivered"]:
+        faults["signal_" + signame] = state["delivered"]
+    res = dict(violations=vio, inconclusive=None, faults=faults,
+               probes={"main_signal_runs": 1, "main_signal_delivered": int(bool(state["delivered"])),
+                       "main_signal_solver_running": int(any(h for h in out.stub.history))},
+               digest="mainsig:" + out.sim.digest(), shape=repr(("mainsig", nleaves, signame, json_mode, threads)),
+               nontrivial=bool(state["delivered"]) and bool(out.stub.history), sim_seconds=out.sim.now, steps=out.sim.steps,
+               descriptor=dict(mode="main-signal", signal=signame, steps=steps, second=second, json=json_mode, threads=threads,
+                               delivered=state["delivered"], exception=repr(out.exception), queries=len(out.stub.history)))
+    if keep_log:
+        res["log"] = [("stdout", out.stdout[-800:])] + list(out.sim.log[-300:])
+    return res
+
+
+C17Check.run_main_signal = _run_main_signal
 
 
 def factory():
